@@ -434,6 +434,58 @@ fn main() {
         }
     }
 
+    // ---- B+. key flags modified through the public API: from the default value and from parsed fields of 0, 1, 2 and 3
+    //          octets, every combination of the nine setters; alone, as a subpacket, and (a sample) inside a signature
+    {
+        use pgp::packet::KeyFlags;
+        let starts: Vec<(&str, Option<Vec<u8>>)> = vec![("default", None), ("parsed-0", Some(vec![])), ("parsed-1", Some(vec![0x01])), ("parsed-2", Some(vec![0x02, 0x00])), ("parsed-3", Some(vec![0x00, 0x00, 0x01]))];
+        for (sname, start) in &starts {
+            for combo in 0u32..512 {
+                if !thorough && combo % 3 != 0 && combo.count_ones() > 2 { continue; }
+                let mk = || -> Option<KeyFlags> {
+                    let mut f = match start { None => KeyFlags::default(), Some(b) => KeyFlags::try_from_reader(&b[..]).ok()? };
+                    if combo & 1 != 0 { f.set_certify(true); } if combo & 2 != 0 { f.set_sign(true); } if combo & 4 != 0 { f.set_encrypt_comms(true); }
+                    if combo & 8 != 0 { f.set_encrypt_storage(true); } if combo & 16 != 0 { f.set_shared(true); } if combo & 32 != 0 { f.set_authentication(true); }
+                    if combo & 64 != 0 { f.set_group(true); } if combo & 128 != 0 { f.set_adsk(true); } if combo & 256 != 0 { f.set_timestamping(true); }
+                    Some(f)
+                };
+                let r = guarded(|| -> Option<(usize, Vec<u8>, bool, bool, usize, usize)> {
+                    let f = mk()?;
+                    let w = f.to_bytes().ok()?;
+                    let back = KeyFlags::try_from_reader(&w[..]).ok()?;
+                    let getters = |k: &KeyFlags| (k.certify(), k.sign(), k.encrypt_comms(), k.encrypt_storage(), k.shared(), k.authentication(), k.group(), k.adsk(), k.timestamping());
+                    let sp = Subpacket::regular(SubpacketData::KeyFlags(f.clone())).ok()?;
+                    let spw = sp.to_bytes().ok()?;
+                    Some((f.write_len(), w, back == f, getters(&back) == getters(&f), sp.write_len(), spw.len()))
+                });
+                let r2 = r.clone();
+                let (imp, ok) = match r {
+                    Ok(Some((announced, w, eq, same_flags, sp_announced, sp_written))) => (format!("announced={announced} written={} parses-back-equal={eq} same-flags={same_flags} subpacket announced={sp_announced} written={sp_written}", w.len()), announced == w.len() && eq && same_flags && sp_announced == sp_written),
+                    Ok(None) => ("not constructible".to_string(), true),
+                    Err(p) => (p, false),
+                };
+                cx.out.case("", &[], &["keyflags".into(), sname.to_string(), combo.to_string()], &imp, Some(ok), &format!("api-keyflags-{sname}{}", if combo >= 128 { "-second-octet" } else { "" }));
+                // the same value in the model of the object (Wire/KeyFlagsObj.v): octets written, announced length, parses back equal
+                if let Ok(Some((announced, w, eq, _, _, _))) = &r2 {
+                    cx.out.case("kflags", &[match start { None => "default".to_string(), Some(b) => if b.is_empty() { "-".to_string() } else { hx(b) } }, combo.to_string()], &["keyflags".into(), sname.to_string(), combo.to_string()],
+                        &format!("{} {} {}", if w.is_empty() { "-".to_string() } else { hx(w) }, announced, *eq as u8), None, &format!("api-keyflags-model-{sname}"));
+                }
+                // inside a signature: the packet's announced length and the parse back
+                if combo % 37 == 5 || combo == 128 || combo == 256 || combo == 384 {
+                    let (name, sk) = &keys[(combo as usize) % keys.len()];
+                    if let Ok(Some(f)) = guarded(mk) {
+                        let sig = guarded(|| -> Option<pgp::packet::Signature> {
+                            let mut c = if sk.version() == KeyVersion::V6 { SignatureConfig::v6(Rng::new(combo as u64), SignatureType::Binary, sk.primary_key.algorithm(), sk.primary_key.hash_alg()).ok()? } else { SignatureConfig::v4(SignatureType::Binary, sk.primary_key.algorithm(), sk.primary_key.hash_alg()) };
+                            c.hashed_subpackets = vec![Subpacket::regular(SubpacketData::SignatureCreationTime(Timestamp::from_secs(1_700_000_000))).ok()?, Subpacket::regular(SubpacketData::KeyFlags(f.clone())).ok()?, Subpacket::regular(SubpacketData::IssuerFingerprint(sk.fingerprint())).ok()?];
+                            c.sign(&sk.primary_key, &Password::empty(), &b"data"[..]).ok()
+                        });
+                        if let Ok(Some(sig)) = sig { cx.object(&format!("{name} signature with api-built key flags {sname} {combo}"), &Packet::from(sig), |b| PacketParser::new(b).next().and_then(|r| r.ok()), "api-keyflags-signature"); }
+                    }
+                }
+            }
+        }
+    }
+
     // ---- B''. session-key packets built as plain values of the public enums, every S2K specifier
     // kind (including reserved / private / unassigned type octets) and every AEAD mode
     {
